@@ -1,1 +1,13 @@
-
+import SphericalVerif.Props.C19
+#print axioms C19.constant_round_trip
+#print axioms C19.constant_real_variant
+#print axioms C19.vector_round_trip
+#print axioms C19.vector_round_trip'
+#print axioms C19.vector_real_variant
+#print axioms C19.round_trips_Kreal
+#print axioms C19.constant_is_Y00
+#print axioms C19.vector_is_Y1
+#print axioms C19.real_vector_is_Y1
+#print axioms C19.Y1_standard_form
+#print axioms C19.dot_components
+#print axioms C19.real_vector_reality
